@@ -15,8 +15,9 @@ component), together with `applySubs_eq`.  `gradInv_unshrink` shows that the rec
 
 All statements are for arbitrary sizes and states; `TablesInv` (proved to be preserved in
 `Lemmas/McSmoTables.lean`) is assumed of the state the operation is applied to.
-Remarks: the hypotheses `hai`/`haj` of `solve2DBox_mem` and `h0` of `gradInv_deactivateExample`
-are not needed by the proofs (kept for the interface).
+Remark: the hypothesis `h0` of `gradInv_deactivateExample` is not needed by the proof (kept for
+the interface).  `solve2DBox_mem` needs the feasible start since the upstream fix of F5 (the
+current point is kept when no edge improves the objective).
 
 Helper lemmas live in the namespace `SharkVerif.Mc.Grad` (no name clashes with the other lemma
 files); the theorems of the interface are in `SharkVerif.Mc`.
@@ -39,11 +40,9 @@ theorem solve2DBox_mem (ai aj gi gj Qii Qij Qjj Li Ui Lj Uj : Rat) (hi : Li ≤ 
   have e2 := solveEdge_mem aj (gj - Qij * (Ui - ai)) Qjj Lj Uj hj
   have e3 := solveEdge_mem ai (gi - Qij * (Uj - aj)) Qii Li Ui hi
   intro r
-  have _ := hai
-  have _ := haj
   simp only [r, solve2DBox]
   split_ifs with hc <;>
-    simp only [le_refl, and_self, hi, hj, e0, e1, e2, e3]
+    simp only [le_refl, and_self, hi, hj, e0, e1, e2, e3, hai, haj]
   obtain ⟨_, h1, h2, h3, h4⟩ := hc
   exact ⟨⟨le_of_lt h1, le_of_lt h3⟩, le_of_lt h2, le_of_lt h4⟩
 
